@@ -48,6 +48,32 @@ func combo(i int) string {
 	return segments[a] + joiners[b] + segments[c] + joiners[d] + segments[e]
 }
 
+// enumMode says how a case gets its names.
+type enumMode int
+
+const (
+	seeded    enumMode = iota // drawn from the case's PRNG
+	enumShort                 // the c-th slice of the enumeration of all combinations shorter than 200 bytes
+	enumLong                  // one combination of >= 200 bytes (index c of longCombos)
+)
+
+// shortCombos / longCombos split the enumeration: an over-long name makes a whole call fail with ENAMETOOLONG before
+// anything is written, so such names get single-name cases instead of spoiling every document of the enumeration.
+var shortCombos, longCombos = func() (short, long []int32) {
+	n := comboCount()
+	for i := 0; i < n; i++ {
+		if len(combo(i)) < 200 {
+			short = append(short, int32(i))
+		} else {
+			long = append(long, int32(i))
+		}
+	}
+	return
+}()
+
+// enumDocs is the number of enumShort cases for perCase names per case.
+func enumDocs(perCase int) int { return (len(shortCombos) + perCase - 1) / perCase }
+
 // randomName draws a random byte string: raw bytes, bytes from a dangerous alphabet, or a mutated combination.
 func randomName(r *rand.Rand) string {
 	switch r.IntN(4) {
@@ -150,29 +176,45 @@ var collisionSets = [][]string{
 type nameSource struct {
 	r  *rand.Rand
 	sb *sandbox
-	// enumerate: take combos [from, from+n) instead of a seeded subset
-	next int
 }
 
 // batch returns n names for case c: mostly combinations (enumerated from c*n when all is set, else drawn),
 // plus targeted and random ones.
-func (ns *nameSource) batch(n int, all bool, c int) []string {
+func (ns *nameSource) batch(n int, all enumMode, c int) []string {
 	out := make([]string, 0, n)
-	tg := targeted(ns.sb)
-	for k := 0; k < n; k++ {
-		switch {
-		case all:
-			out = append(out, combo((c*n+k)%comboCount()))
-		default:
-			switch ns.r.IntN(10) {
-			case 0, 1:
-				out = append(out, tg[ns.r.IntN(len(tg))])
-			case 2, 3, 4:
-				out = append(out, randomName(ns.r))
-			default:
-				out = append(out, combo(ns.r.IntN(comboCount())))
+	switch all {
+	case enumLong:
+		return append(out, combo(int(longCombos[c%len(longCombos)])))
+	case enumShort:
+		// strided: the names of one case are far apart in the enumeration (neighbours differ only in the last
+		// segment and mostly sanitise to the same name)
+		docs := enumDocs(n)
+		for k := 0; k < n; k++ {
+			if i := c%docs + k*docs; i < len(shortCombos) {
+				out = append(out, combo(int(shortCombos[i])))
 			}
 		}
+		return out
+	}
+	tg := targeted(ns.sb)
+	for k := 0; k < n; k++ {
+		var s string
+		for try := 0; try < 6; try++ {
+			switch ns.r.IntN(10) {
+			case 0, 1:
+				s = tg[ns.r.IntN(len(tg))]
+			case 2, 3, 4:
+				s = randomName(ns.r)
+			default:
+				s = combo(ns.r.IntN(comboCount()))
+			}
+			// over-long names make the whole call fail with ENAMETOOLONG before anything is written:
+			// keep them rare in the seeded subset (the thorough enumeration has them all)
+			if len(s) < 200 || ns.r.IntN(8) == 0 {
+				break
+			}
+		}
+		out = append(out, s)
 	}
 	return out
 }
